@@ -6,7 +6,9 @@ Local Open Scope N_scope.
 
 Record wf_store (l : list entry) : Prop := mkWfStore {
   ws_nodup : NoDup (keys l);
-  ws_id : forall e, In e l -> bid (eb e) <> 0 /\ bparent (eb e) <> 0 /\ bid (eb e) <> bparent (eb e);
+  (* parent ids may be empty (0): a block whose parent id is empty is a root; AddLink does not recognise
+     a stored root when it is fed again (links[id] = "") *)
+  ws_id : forall e, In e l -> bid (eb e) <> 0 /\ bid (eb e) <> bparent (eb e);
   ws_up : forall e p, In e l -> find (bparent (eb e)) l = Some p -> bnum (eb p) < bnum (eb e)
 }.
 
@@ -85,6 +87,27 @@ Proof.
   intros Hwf Hc. destruct (find x l) as [e|] eqn:Hf.
   - pose proof (chain_measure l Hwf x y p Hc e Hf). pose proof (below_le l (bnum (eb e))). lia.
   - inversion Hc as [z|z ? e' p' Hne' Hf' Hc']; subst; [cbn; lia | congruence].
+Qed.
+
+(* no entry is stored under the empty id; the entries of a chain that rests on a non-empty id have
+   non-empty parent ids *)
+Lemma find_zero_wf l : wf_store l -> find 0 l = None.
+Proof.
+  intros Hwf. destruct (find 0 l) as [e|] eqn:F; [|reflexivity].
+  apply find_some in F as [Hin Hk]. destruct (ws_id _ Hwf e Hin) as (H & _). unfold key in Hk. congruence.
+Qed.
+
+Lemma chain_from_zero l y p : wf_store l -> chain l 0 y p -> y = 0 /\ p = [].
+Proof.
+  intros Hwf Hc. inversion Hc as [|? ? e q Hne Hf Hq]; subst; [auto|].
+  rewrite (find_zero_wf l Hwf) in Hf. discriminate.
+Qed.
+
+Lemma chain_parent_nz l x y p : wf_store l -> y <> 0 -> chain l x y p -> forall e, In e p -> bparent (eb e) <> 0.
+Proof.
+  intros Hwf Hy Hc. induction Hc as [x|x y e p Hne Hf Hc IH]; intros a Ha; [destruct Ha|].
+  apply in_app_or in Ha as [Ha|[<-|[]]]; [apply IH; assumption|].
+  intros E. rewrite E in Hc. destruct (chain_from_zero _ _ _ Hwf Hc) as [Hy0 _]. contradiction.
 Qed.
 
 (* ---------- ReversibleSegment ---------- *)
@@ -204,6 +227,29 @@ Proof.
   - congruence.
 Qed.
 
+(* ---------- roots: entries whose parent id is empty ---------- *)
+
+Lemma has_lib_nz d : ri (libref d) <> 0 -> has_lib d = true.
+Proof.
+  intros H. unfold has_lib, ref_eqb, ref_empty. cbn [ri rn].
+  destruct (N.eqb_spec (ri (libref d)) 0); [contradiction | reflexivity].
+Qed.
+
+(* ReversibleSegment from a stored root: nothing (the root is the LIB block itself, lies in the guard zone,
+   or its empty parent link is not the LIB) *)
+Lemma rs_root d first x cn e : wf_store (store d) -> ri (libref d) <> 0 ->
+  find x (store d) = Some e -> bparent (eb e) = 0 ->
+  exists r, rs_loop (fuel_of d) d first x cn [] = Some ([], r).
+Proof.
+  intros Hwf Hl Hf Hp. unfold fuel_of. cbn [rs_loop].
+  destruct ((first <? cn) && (cn <? rn (libref d))); [eauto|].
+  destruct (x =? ri (libref d)); [eauto|].
+  rewrite Hf, Hp.
+  destruct ((first <? num_or0 d 0) && (num_or0 d 0 <? rn (libref d))); [eauto|].
+  destruct (N.eqb_spec 0 (ri (libref d))) as [E|_]; [exfalso; apply Hl; symmetry; exact E|].
+  rewrite (find_zero_wf _ Hwf), (has_lib_nz d Hl). eauto.
+Qed.
+
 (* ---------- ChainSwitchSegments ---------- *)
 
 Lemma link_of_stored d id e : find id (store d) = Some e -> link_of d id = bparent (eb e).
@@ -219,37 +265,40 @@ Proof.
   rewrite Ht. eauto.
 Qed.
 
-Lemma undo_chain_chain d : wf_store (store d) -> forall x y p, chain (store d) x y p ->
+Lemma undo_chain_chain d : wf_store (store d) -> forall x y p, chain (store d) x y p -> y <> 0 ->
   forall f, enough (store d) x f ->
   exists t, undo_chain f d x = Some (rev (map key p) ++ y :: t).
 Proof.
-  intros Hwf x y p Hc. induction Hc as [x|x y e p Hne Hf Hc IH]; intros f He.
+  intros Hwf x y p Hc Hy0. induction Hc as [x|x y e p Hne Hf Hc IH]; intros f He.
   - destruct (undo_total d Hwf f x He) as [t Ht]. exists t. exact Ht.
   - destruct f as [|f]; [destruct He; lia|]. cbn [undo_chain].
     rewrite (link_of_stored d x e Hf).
-    destruct (ws_id _ Hwf e (proj1 (find_some _ _ _ Hf))) as (_ & Hp & _).
+    assert (Hp : bparent (eb e) <> 0).
+    { apply (chain_parent_nz _ x y (p ++ [e]) Hwf Hy0); [econstructor; eassumption | apply in_or_app; right; left; reflexivity]. }
     destruct (N.eqb_spec (bparent (eb e)) 0) as [E|E]; [contradiction|].
-    destruct (IH f) as [t Ht]; [eapply enough_parent; eassumption|].
+    destruct (IH Hy0 f) as [t Ht]; [eapply enough_parent; eassumption|].
     rewrite Ht. exists t. rewrite map_app, rev_app_distr. cbn [map rev app].
     apply find_some in Hf as [_ Hk]. rewrite Hk. reflexivity.
 Qed.
 
 Lemma redo_chain_chain d seen : wf_store (store d) -> forall x j p, chain (store d) x j p ->
-  (forall e, In e p -> memN (key e) seen = false) -> memN j seen = true ->
+  j <> 0 -> (forall e, In e p -> memN (key e) seen = false) -> memN j seen = true ->
   forall f acc, enough (store d) x f ->
   redo_chain f d seen x acc = Some (Some (map key p ++ acc, j)).
 Proof.
-  intros Hwf x j p Hc. induction Hc as [x|x y e p Hne Hf Hc IH]; intros Hns Hj f acc He.
+  intros Hwf x j p Hc. induction Hc as [x|x y e p Hne Hf Hc IH]; intros Hj0 Hns Hj f acc He.
   - destruct f as [|f]; [destruct He; lia|]. cbn [redo_chain]. rewrite Hj. reflexivity.
   - destruct f as [|f]; [destruct He; lia|]. cbn [redo_chain].
     assert (Hx : memN x seen = false).
     { rewrite <- (proj2 (find_some _ _ _ Hf)). apply Hns. apply in_or_app. right. left. reflexivity. }
     rewrite Hx, (link_of_stored d x e Hf).
-    destruct (ws_id _ Hwf e (proj1 (find_some _ _ _ Hf))) as (_ & Hp & _).
+    assert (Hp : bparent (eb e) <> 0).
+    { apply (chain_parent_nz _ x y (p ++ [e]) Hwf Hj0); [econstructor; eassumption | apply in_or_app; right; left; reflexivity]. }
     destruct (N.eqb_spec (bparent (eb e)) 0) as [E|E]; [contradiction|].
     rewrite IH.
     + rewrite map_app, <- app_assoc. cbn [map app].
       apply find_some in Hf as [_ Hk]. rewrite Hk. reflexivity.
+    + exact Hj0.
     + intros e' He'. apply Hns. apply in_or_app. left. exact He'.
     + exact Hj.
     + eapply enough_parent; eassumption.
